@@ -26,7 +26,7 @@ rep=subprocess.check_output(['python3','/verif/tools/seedreport.py']).decode()
 out.append('''
 ### 10.3 Seeded defects: which checks catch which changes
 
-Fresh sub-agents were each given only the text of one property and a scratch worktree of /repo (nothing from /verif) and asked for changes that break the property, still compile, pass the existing tests and need something specific to manifest, each with a demonstration test. I confirmed every candidate myself in a scratch worktree (`tools/seedverify.sh`: the demonstration passes on the unchanged tree and fails with the patch, the patch applies and builds, the existing tests of the touched packages still pass apart from failures that also occur on the unchanged tree) and then ran the property's quick check against the patched copy (`tools/seedtest.sh`, `VERIF_REPO=<scratch worktree>`; exit 1 with a natively replayed VIOLATION = caught). Each kept seed is `/verif/seeded/<id>/` with `patch.diff`, the demonstration and `meta.json` (property, what it needs, what I ran, the outcome). Where a check missed a seed the harness was extended for that *class* of defect (never for the one input) and re-run; the table shows the final state, and the extensions made because of seeds were: C05 message accessors, C07 wide operands + prologue gas oracle + negative-limit child, C08 9-byte RSHIFT, C13 batch double spend, C15 epoch isolation, C25 multi-output transactions, C30 two proofs in a row, C35 math intrinsics, C03 cross-type pairs, C06 32-byte operands, C12 processBlock delivery orders, C14 Increase ordering, C17 per-epoch validator sets + independent digest, C21 header/main-chain caches, C22 output layouts + under-indexed orphans, C24 chained transactions + P2WSH, C26 unswept expiry, C36 three-request histories, C06 result-lifetime lemma under the sync.Pool reuse model (session 3; catches C06b-m3), C04 unrelated serialisation between decode and use under the pool reuse model (session 3; catches C04b-m1).
+Fresh sub-agents were each given only the text of one property and a scratch worktree of /repo (nothing from /verif) and asked for changes that break the property, still compile, pass the existing tests and need something specific to manifest, each with a demonstration test. I confirmed every candidate myself in a scratch worktree (`tools/seedverify.sh`: the demonstration passes on the unchanged tree and fails with the patch, the patch applies and builds, the existing tests of the touched packages still pass apart from failures that also occur on the unchanged tree) and then ran the property's quick check against the patched copy (`tools/seedtest.sh`, `VERIF_REPO=<scratch worktree>`; exit 1 with a natively replayed VIOLATION = caught). Each kept seed is `/verif/seeded/<id>/` with `patch.diff`, the demonstration and `meta.json` (property, what it needs, what I ran, the outcome). Where a check missed a seed the harness was extended for that *class* of defect (never for the one input) and re-run; the table shows the final state, and the extensions made because of seeds were: C05 message accessors, C07 wide operands + prologue gas oracle + negative-limit child, C08 9-byte RSHIFT, C13 batch double spend, C15 epoch isolation, C25 multi-output transactions, C30 two proofs in a row, C35 math intrinsics, C03 cross-type pairs, C06 32-byte operands, C12 processBlock delivery orders, C14 Increase ordering, C17 per-epoch validator sets + independent digest, C21 header/main-chain caches, C22 output layouts + under-indexed orphans, C24 chained transactions + P2WSH, C26 unswept expiry, C36 three-request histories, C06 result-lifetime lemma under the sync.Pool reuse model (session 3; catches C06b-m3), C04 unrelated serialisation between decode and use under the pool reuse model (session 3; catches C04b-m1), C35 equally spaced histories of up to 8 increases (session 3; catches C35-m3).
 
 ''')
 out.append(rep)
@@ -37,6 +37,6 @@ for k in sorted(c['claimed']):
 out.append("**Not applicable** (section 6 and `MANIFEST.json`): "+", ".join(sorted(c['not_applicable']))+".\n")
 try:
     t=open('/verif/tools/thorough_last.txt').read().strip().split('\n')
-    out.append('\n### 10.5 Last full run of the thorough tier\n\nEvery registered thorough obligation set was run once more at the end (background snapshot of the committed /verif against /repo HEAD, 16 cores, cross-solver sampling with z3 4.8.12 and cvc5 enabled); a check is listed when it finished. All listed runs exited 0 with no inconclusive, UNCONFIRMED or ENGINE-ERROR line. Two obligations were added after this run (session 3): VerifC06Seq_* and VerifC04Text_3; both belong to the quick tier (which the thorough tier includes) and ran clean there (evidence/C06.json, evidence/C04.json); the thorough lines of C04 and C06 below predate them. Summary lines (tools/thorough_last.txt):\n\n```\n'+'\n'.join(t)+'\n```\n')
+    out.append('\n### 10.5 Last full run of the thorough tier\n\nEvery registered thorough obligation set was run once more at the end (background snapshot of the committed /verif against /repo HEAD, 16 cores, cross-solver sampling with z3 4.8.12 and cvc5 enabled); a check is listed when it finished. All listed runs exited 0 with no inconclusive, UNCONFIRMED or ENGINE-ERROR line. Four obligation groups were added after this run (session 3): VerifC06Seq_*, VerifC06SeqAlt_*, VerifC35SHistory_* and VerifC04Text_3; both belong to the quick tier (which the thorough tier includes) and ran clean there (evidence/C06.json, evidence/C04.json, evidence/C35.json); the thorough lines of C04, C06 and C35 below predate them. Summary lines (tools/thorough_last.txt):\n\n```\n'+'\n'.join(t)+'\n```\n')
 except Exception: pass
 open('/verif/DESIGN.md','w').write(s+''.join(out))
